@@ -38,11 +38,14 @@ CHECKS = [
           "are mutually orthogonal and of unit norm (nf_k^2 c_k^T Q c_k = 1) for the product-space inner product a^T G b, which is the SUM OVER "
           "COMPONENTS of a_p^T G_p b_p for blocks of DIFFERENT sizes (block_split_sound, split_sizes_concat); the sample covariance of score "
           "columns S c_j, S c_k is c_j^T Q c_k (= nu_k delta_jk for orthonormal univariate bases: PACE scores uncorrelated with variance nu); "
-          "inverse_transform is affine per component. Tie: the implementation's univariate scores, Gram matrices, eigenpairs, coefficients, "
+          "inverse_transform is affine per component; listing the components in another order is a simultaneous re-indexing of the stacked "
+          "coordinates by a permutation s: the score covariance is re-indexed (cov_reidx_entry), every eigenpair of the re-indexed matrix "
+          "is the re-indexed eigenvector with the same eigenvalue, inner products and hence scores are unchanged (Lemmas/PermEquiv.v). Tie: the implementation's univariate scores, Gram matrices, eigenpairs, coefficients, "
           "PACE scores and reconstructions are checked exactly in Q against these relations for P=1..3 components on different grids with UFPCA "
           "and P-spline expansions; metamorphic check under every permutation of the components; irregular components for well-formedness. "
           "Open finding F16 (normalisation with the uncentred second moment) recognised through a corrected-coefficients certificate.",
-  "note": STD_NOTE + " Partial: permutation equivariance is a metamorphic monitor, not a theorem (C04_perm_equivariance_partial)."},
+  "note": STD_NOTE + " Partial: permutation equivariance is proved for the matrix eigenproblem, the covariance and the scores under re-indexing; that the "
+          "implementation's block layout realises such a re-indexing is checked by the metamorphic monitor (every permutation of the components)."},
  {"id": "C05",
   "text": "Theorems about the explicit (tensor-product) penalised weighted least-squares normal equations A c = B^T(w.Bc) + sum lambda D^T D c = "
           "B^T(w.y), for ANY design rows, weights >= 0, penalties >= 0 (hence any dimension): quadratic form c.Ac = sum w_k (b_k.c)^2 + sum "
